@@ -114,3 +114,20 @@ fn ev_clone<'a>(e: &Ev<'a>) -> (r: Ev<'a>)
 fn replay_as_dyn<'a, 'b>(r: &'b mut ReplayEvents<'a>) -> (d: &'b mut dyn Events<'a>)
     ensures d.rest() == old(r).rest(), final(r).rest() == final(d).rest(),
 { r }
+
+// ---- MA::next_value_seed: the value seed (serde side) is opaque ----
+#[verifier::external_body]
+pub struct ValSeed { _p: () }     // stands for `Vv: DeserializeSeed<'de>`
+#[verifier::external_body]
+pub struct ValVal { _p: () }      // stands for `Vv::Value`
+uninterp spec fn value_seed_result<'de>(seed: ValSeed, rest: Seq<Ev<'de>>, cfg: Cfg, reference_location: Location, defined_location: Location) -> Result<ValVal, Error>;
+/// `seed.deserialize(YamlDeserializer::new(ev, cfg)).map_err(|e| attach_alias_locations_if_missing(e, r, d))` on the live source
+#[verifier::external_body]
+fn value_seed_on_live<'de>(seed: ValSeed, ev: &mut dyn Events<'de>, cfg: Cfg, reference_location: Location, defined_location: Location) -> (r: Result<ValVal, Error>)
+    ensures r == value_seed_result(seed, old(ev).rest(), cfg, reference_location, defined_location),
+{ unimplemented!() }
+/// the same on a replay of recorded events
+#[verifier::external_body]
+fn value_seed_on_replay<'de>(seed: ValSeed, replay: &mut ReplayEvents<'de>, cfg: Cfg, reference_location: Location, defined_location: Location) -> (r: Result<ValVal, Error>)
+    ensures r == value_seed_result(seed, old(replay).rest(), cfg, reference_location, defined_location),
+{ unimplemented!() }
